@@ -718,7 +718,7 @@ pub fn run(ctx: &mut Ctx, _eng: &mut dyn Engine) {
     let workers = std::thread::available_parallelism().map(|n| n.get()).unwrap_or(4).min(16);
     ctx.rule = format!(
         "every Content-Location = prefix (9 kinds of the property text) + up to {} segments from the 8 kinds, enumerated exhaustively, x \
-         {{complete, error, interrupted}}, dest spelled abs|slash|dots in rotation; {} seeded random strings over a larger token set; \
+         {{complete, error, interrupted}}, dest spelled abs|slash|dots in rotation; structured escape attempts (prefix x lead x 0..5 climbs of 4 spellings x 8 targets); {} seeded random strings over a larger token set; \
          a relative-dest phase (chdir, single thread); {} full Sender->Receiver sessions; each against the real ObjectWriterFSBuilder in a \
          fresh sandbox, tree snapshot before / after open / at the end vs the Lean model's predicted effects; oracle = every effect strictly \
          below dest/; non-trivial = the op had a filesystem effect or the location has a non-Normal component after the strip \
@@ -764,6 +764,47 @@ pub fn run(ctx: &mut Ctx, _eng: &mut dyn Engine) {
     }
     record(ctx, &jobs, res);
     ctx.exhaustive = true;
+
+    // 1b. structured escape attempts: <prefix> <lead of plain names> <k climbs> <target> (targets in rotation)
+    ctx.case("attacks");
+    let mut jobs: Vec<Job> = Vec::new();
+    let leads = ["", "vq7n/", "sub/", "vq7n/sub/", "./", "sub/./", "old.txt/", "vq7n//"];
+    let climbs = ["..", "%2e%2e", ".%2E", "..\\"];
+    let mut k = 0usize;
+    for pre in PREFIXES.iter() {
+        for lead in leads.iter() {
+            for ups in 0..=5usize {
+                for climb in climbs.iter() {
+                    if ups == 0 && *climb != ".." {
+                        continue;
+                    }
+                    let root = root_for(idx);
+                    let targets = [
+                        "vq7n".to_string(),
+                        "outer/canary.txt".to_string(),
+                        "top.txt".to_string(),
+                        "dest/old.txt".to_string(),
+                        "dest/sub/vq7n".to_string(),
+                        format!("{}/outer/canary.txt", root),
+                        format!("{}/top.txt", &root[1..]),
+                        "".to_string(),
+                    ];
+                    let target = &targets[k % targets.len()];
+                    let mut loc = format!("{}{}", pre, lead);
+                    for _ in 0..ups {
+                        loc.push_str(climb);
+                        loc.push('/');
+                    }
+                    loc.push_str(target);
+                    jobs.push(mk_job("run", &root, forms[k % 3], &loc, outcomes[(k / 3) % 3], "attack"));
+                    idx += 1;
+                    k += 1;
+                }
+            }
+        }
+    }
+    let res = execute(&jobs, workers);
+    record(ctx, &jobs, res);
 
     // 2. seeded random strings
     ctx.case("random");
